@@ -8,6 +8,20 @@ ALL = [f'C{i:02d}' for i in range(1, 21)]
 
 # property -> (level text, level note, technique, design section)
 CHECKS = {
+    'C09': (
+        'Lean 4 theorems: the Kraus-branch selection loop of the state-vector trajectory simulator (p -= weight; if p < 0: break) selects '
+        'branch k exactly when the uniform draw lies in the k-th interval of the cumulative weights, for any non-negative weights '
+        '(C09_select_iff over the rationals); the Choi <-> superoperator index reshuffle is an involution for every dimension '
+        '(C09_reshuffle_involution). The reference semantics (Spec.Circuit: one branch per Kraus operator, and independently the '
+        'density-matrix evolution sum_k K rho K^dagger; the two are cross-checked on every case) is compared with DensityMatrixSimulator final '
+        'states (validity: Hermitian, unit trace, positive), with the exact recombination of *all* state-vector trajectories enumerated '
+        'through a symbolic uniform draw, with conversions Kraus / mixture / superoperator / Choi and back, and with noise-model simulation '
+        'against simulating circuit.with_noise(model).',
+        'Trusted: Lean kernel; harness + scripted PRNG + driver (T2 on generated circuits; tolerance 1e-6); Kraus operators come from cirq.kraus '
+        '(C03); thermal / device-derived noise parameters are not modelled; KNOWN FINDING noise:prefix-split (see known_findings.json).',
+        'Lean 4 proof (selection loop, reshuffle) + exact trajectory enumeration and density-matrix correspondence',
+        'DESIGN.md §3 C09',
+    ),
     'C02': (
         'Lean 4 theorems over any commutative ring, any register shape (qudits) and any axes: the unnormalised collapse onto a measurement '
         'outcome is the action of the projector |a><a| on the measured axes (C02_proj_is_operator); it commutes with every operation on '
